@@ -21,6 +21,7 @@ type Verifier struct {
 	funcs       map[string]*ssa.Function // by RelString
 	modAliases  map[string][]string
 	errGlobals  []string
+	lastLeaf    types.Type
 	ghostTypes  map[string]types.Type
 	ghostArrays map[types.Type]bool
 	constInit   map[string]*ssa.Const // global name -> initial constant (never re-assigned)
@@ -160,6 +161,10 @@ func (v *Verifier) prelude(theory string) string {
 (declare-fun errIs (Int Int) Bool)
 (declare-fun trg (Int) Bool)
 (assert (forall ((x Int)) (! (trg x) :pattern ((trg x)))))
+(declare-fun trgk (Int) Bool)
+(assert (forall ((x Int)) (! (trgk x) :pattern ((trgk x)))))
+(declare-fun trgs (String) Bool)
+(assert (forall ((x String)) (! (trgs x) :pattern ((trgs x)))))
 `)
 	var names []string
 	for _, g := range v.errGlobals {
